@@ -37,7 +37,7 @@ KB2 = ["quad", "quad8", "quad9"]
 ITEMS = ["SolidBody/3d", "SolidBody/planestrain", "SolidBody/axi", "SolidBody/3d+nonsym", "SolidBody/planestrain+nonsym", "SolidBody/axi+nonsym", "SolidBody/mixed-threefield", "SolidBody/mixed-nearlyinc",
          "SolidBody/mixed-axi", "SolidBody/mixed-planestrain", "SolidBody/mixed-fullblocks", "SolidBody/linear-elastic", "SolidBody/plasticity",
          "NearlyIncompressible/3d", "NearlyIncompressible/planestrain", "NearlyIncompressible/axi",
-         "Pressure/3d", "Pressure/planestrain", "Pressure/axi", "CauchyStress/3d", "CauchyStress/planestrain",
+         "Pressure/3d", "Pressure/planestrain", "Pressure/axi", "CauchyStress/3d", "CauchyStress/planestrain", "CauchyStress/axi",
          "MPC", "Contact", "PointLoad", "BodyForce", "Gravity", "FormItem/linear-elastic", "FormItem/neo-hooke", "ItemList", "SolidBody/linear-elastic-uniform", "FormItem/nonsymmetric"]
 
 
@@ -58,7 +58,7 @@ def kinds_for(item):
         return ["hexahedron", "hexahedron20", "tetra10", "quad", "quad8", "triangle6"]
     if item in ("Pressure/3d", "CauchyStress/3d"):
         return KB3
-    if item in ("Pressure/planestrain", "Pressure/axi", "CauchyStress/planestrain"):
+    if item in ("Pressure/planestrain", "Pressure/axi", "CauchyStress/planestrain", "CauchyStress/axi"):
         return KB2
     return K2
 
